@@ -251,7 +251,7 @@ def run(ch, ctx, fault=None):
                 else:
                     _, f, dur, padded, sz, char, (l, t, rr, b) = exp
                     ctx.op("next -> %s" % ("StopIteration" if err else
-                                           "Frame(number=%d, duration=%d, size=%s)"
+                                           "Frame(number=%r, duration=%r, size=%r)"
                                            % (got.number, got.duration, tuple(got.render_size)),))
                     check(err is None, "iteration_ended_early",
                           {"expected_frame": f, "step": i, "loop": model.loop}, "next")
@@ -261,7 +261,7 @@ def run(ch, ctx, fault=None):
                             out, ti.geometry.Size(*sz))
                     check((got.number, got.duration, tuple(got.render_size)) == (f, dur, padded),
                           "frame_differs_from_model",
-                          {"got": (got.number, got.duration, tuple(got.render_size)),
+                          {"got": repr((got.number, got.duration, tuple(got.render_size))),
                            "expected": (f, dur, padded), "step": i}, "next")
                     check(got.render_output == out, "frame_output_differs_from_model",
                           {"got": got.render_output[:120], "expected": out[:120], "step": i,
